@@ -42,8 +42,15 @@ class ModelsOps:
                 nm = spec.tag.split(".")[-1]
                 if nm in ("Mapping", "MutableMapping", "Dict"):
                     return isinstance(v, DictV)
-                if nm in ("Sized", "Iterable", "Sequence", "Collection"):
+                if nm in ("Sized", "Sequence", "Collection"):
+                    if isinstance(v, ListV) and v.lazy:
+                        return False
+                    if isinstance(v, ObjV) and v.ci is not None:
+                        return self.prog.lookup(v.ci, "__len__") is not None
                     return isinstance(v, (TupleV, ListV, TermV, DictV))
+                if nm == "Iterable":
+                    return isinstance(v, (TupleV, ListV, TermV, DictV)) or \
+                        (isinstance(v, ObjV) and v.ci is not None and self.prog.lookup(v.ci, "__iter__") is not None)
             I.unsupported(node, f"isinstance against {spec!r}")
         if not isinstance(spec, TypeV):
             I.unsupported(node, f"isinstance against {spec!r}")
@@ -285,6 +292,49 @@ class ModelsOps:
             if not cmp:
                 self.flag("float-arith", node, f"{l.kind} with {r.kind}")
 
+    def stable_sort(self, items, keyf, reverse, node):
+        """Stable sort by symbolic keys: unknown orders fork (memoised, hence consistent on a path)."""
+        rev = reverse is not None and self.truth(reverse, node)
+        seq = list(reversed(items)) if rev else list(items)
+        keys = [self.call(keyf, [x], {}, node) for x in seq]
+        out = []
+        for k, x in zip(keys, seq):
+            pos = len(out)
+            while pos > 0 and self.key_less(k, out[pos - 1][0], node):
+                pos -= 1
+            out.insert(pos, (k, x))
+        res = [x for _, x in out]
+        return list(reversed(res)) if rev else res
+
+    def key_less(self, a, b, node) -> bool:
+        if isinstance(a, BoolV):
+            a = self.num_const(int(a.val), "bool")
+        if isinstance(b, BoolV):
+            b = self.num_const(int(b.val), "bool")
+        if isinstance(a, Num) and isinstance(b, Num):
+            return self.decide_cmp("<", a, b, node)
+        if isinstance(a, StrV) and isinstance(b, StrV):
+            if a.const is not None and b.const is not None:
+                return a.const < b.const
+            ta = a.const if a.const is not None else a.tag
+            tb = b.const if b.const is not None else b.tag
+            if ta == tb:
+                return False
+            memo = self.st.__dict__.setdefault("str_lt", {})
+            if (ta, tb) not in memo:
+                r = bool(self.I.choose(2, f"str-order({ta} < {tb})", ["no", "yes"]))
+                memo[(ta, tb)] = r
+                memo[(tb, ta)] = not r
+            return memo[(ta, tb)]
+        if isinstance(a, TupleV) and isinstance(b, TupleV):
+            for x, y in zip(a.items, b.items):
+                if self.key_less(x, y, node):
+                    return True
+                if self.key_less(y, x, node):
+                    return False
+            return len(a.items) < len(b.items)
+        self.I.unsupported(node, f"ordering of sort keys {a!r} and {b!r}")
+
     def simplify_numden(self, rf: RF) -> RF:
         """numerator(x)/denominator(x) == x"""
         rf = self.st.norm(rf)
@@ -468,6 +518,8 @@ class ModelsOps:
         if name == "Fraction":
             return self.make_fraction(args, node)
         if name == "Term":
+            if getattr(self, "term_objects", False):
+                return self.instantiate(t.ci or self.prog.cls("Term"), args, kwargs, node)
             return self.make_term(args, kwargs, node)
         if name == "ExchangeRate" and not self.inline_rate_ctor:
             return self.make_rate(args, kwargs, node)
@@ -637,6 +689,8 @@ class ModelsOps:
             if isinstance(v, TupleV):
                 return self.num_const(len(v.items))
             if isinstance(v, ListV):
+                if v.lazy:
+                    I.raise_("TypeError", node)     # generators have no len()
                 if v.items is None and not v.len_choices:
                     n = Num(RF.atom(("len", v.tag)), "int")
                     return n
@@ -645,6 +699,8 @@ class ModelsOps:
                 return self.term_len(v, node)
             if isinstance(v, ObjV) and v.name == "kwargs":
                 return self.num_const(len(v.fields))
+            if isinstance(v, ObjV) and v.ci is not None and self.prog.lookup(v.ci, "__len__") is not None:
+                return I.call_function(self.prog.lookup(v.ci, "__len__"), [v], {}, node)
             if isinstance(v, (OpaqueV, GlobalMapV, StrV)):
                 return Num(RF.atom(("len", getattr(v, "tag", getattr(v, "name", "?")))), "int")
             I.unsupported(node, f"len of {v!r}")
@@ -748,6 +804,56 @@ class ModelsOps:
             if all(sq is not None for sq in seqs):
                 self.st.effects.append(("map", args[0], seqs, self.where(node)))
                 return ListV([self.call(args[0], list(t), {}, node) for t in zip(*seqs)])
+        if name == "enumerate" and args:
+            sq = self.iterate(args[0], node)
+            if sq is not None:
+                lv = ListV([TupleV([self.num_const(i), x]) for i, x in enumerate(sq)])
+                lv.lazy = True
+                return lv
+        if name == "itertools.chain":
+            out = []
+            for a in args:
+                sq = self.iterate(a, node)
+                if sq is None:
+                    out = None
+                    break
+                out.extend(sq)
+            if out is not None:
+                lv = ListV(out)
+                lv.lazy = True
+                return lv
+        if name == "functools.reduce" and len(args) >= 2:
+            sq = self.iterate(args[1], node)
+            if sq is not None:
+                if len(args) > 2:
+                    acc = args[2]
+                elif sq:
+                    acc, sq = sq[0], sq[1:]
+                else:
+                    I.raise_("TypeError", node)
+                for x in sq:
+                    acc = self.call(args[0], [acc, x], {}, node)
+                return acc
+        if name == "itertools.groupby" and args:
+            sq = self.iterate(args[0], node)
+            keyf = kwargs.get("key", args[1] if len(args) > 1 else None)
+            if sq is not None:
+                groups = []
+                for x in sq:
+                    k = self.call(keyf, [x], {}, node) if keyf is not None else x
+                    if groups and self.keys_equal(groups[-1][0], k, node):
+                        groups[-1][1].append(x)
+                    else:
+                        groups.append((k, [x]))
+                lv = ListV([TupleV([k, IterV(g)]) for k, g in groups])
+                lv.lazy = True
+                return lv
+        if name == "sorted" and args and kwargs.get("key") is not None:
+            sq = self.iterate(args[0], node)
+            if sq is not None:
+                out = self.stable_sort(sq, kwargs["key"], kwargs.get("reverse"), node)
+                self.st.effects.append(("sorted", sq, kwargs.get("reverse"), kwargs["key"], self.where(node)))
+                return ListV(out)
         if name == "sorted" and args:
             sq = self.iterate(args[0], node)
             if sq is not None and len(sq) <= 4:
